@@ -463,7 +463,7 @@ def main():
         else: rec.guard(run_case, rec, inp)
         rec.write(args.out); return
     rng = rng_of(args.seed, 4)
-    t0 = time.time(); budget = 24 if args.tier == "quick" else 300
+    t0 = time.process_time(); budget = 2 * 24 if args.tier == "quick" else 300
     allc = APPLICABLE + INAPPLICABLE + KNOWN_IFU + HOLDS
     # regression witness: DdtDdKDE with a line-of-sight draw
     rec.guard(run_case, rec, gen(rng, "los_global_sigma/GAUSSIAN", t="DdtDdKDE", N=5))
@@ -489,8 +489,8 @@ def main():
             ts = types_for(c)
             t = ts[(r + int(rng.integers(len(ts)))) % len(ts)] if args.tier == "quick" else None
             rec.guard(run_case, rec, gen(rng, c, t=t, good_fit=bool(rng.random() < 0.5)))
-            if time.time() - t0 > budget: break
-        if time.time() - t0 > budget: break
+            if time.process_time() - t0 > budget: break
+        if time.process_time() - t0 > budget: break
     rec.write(args.out)
 
 
